@@ -111,6 +111,7 @@ def run(pid, tier):
         import chk_wgraph
         chk_wgraph.api_automaton(chk, binary, sc, tier, purity_pid=True)
         # attribute race reports to scenarios
+        open(sc.path("scen.stderr.txt"), "w").write(r.stderr or "")
         races = {}
         cur = None
         for line in r.stderr.split("\n"):
